@@ -43,6 +43,19 @@ CLAIMED = {
         technique="symbolic execution of real Python source over a finite enum sort; SMT equivalence with the "
                   "parsed documentation table (z3/cvc5); native replay",
         design_ref="§2 C11"),
+    "C27": dict(
+        level="proof",
+        text="to_vtl_json and _build_component are symbolically executed from the real source with component dtype "
+             "ranging over every DataType of the installed pysdmx (enumerated at run time) and role over Role, for "
+             "DSD / Schema / Dataflow inputs; role, type, nullability, order and naming are proved equal to the "
+             "tables parsed from docs/data_structures.rst, unmapped types must raise InputValidationException, and "
+             "a frame clause forbids any mutation of module-level state or of the argument (history independence).",
+        note="Component lists of fixed small lengths (shapes listed in evidence); independence of list length rests "
+             "on the map-loop argument (no cross-iteration state), not on the solver. pysdmx object model, XML/JSON "
+             "readers and run_sdmx URN matching are assumed.",
+        technique="symbolic execution of real Python source over finite enum sorts + SMT strings; doc-table oracle; "
+                  "frame obligations; native replay with pysdmx objects",
+        design_ref="§2 C27"),
 }
 
 NOT_YET = "not built yet in this round; planned per DESIGN.md §2 (no claim until its check exists and is sound)"
